@@ -134,6 +134,7 @@ type World struct {
 	heldReaders  []heldReader // open GetReader results that are read some steps later
 	bulkBytes    map[int]int  // per transaction: bytes of key names written by txburst steps
 	commitTooBig bool         // the last Commit failed because the transaction exceeds Badger's transaction size
+	prevFile     fs_db.File   // the last created file whose Close succeeded (closed once more during a later Create)
 }
 
 var dirCounter atomic.Int64
@@ -303,6 +304,7 @@ func (w *World) closeDB() {
 
 // Reopen closes and opens the database again (model: open transactions vanish).
 func (w *World) Reopen() error {
+	w.prevFile = nil // handles of the old incarnation are not used again
 	if w.Case.External {
 		// the server goes away: readers it is still streaming to are read out first, and the handles
 		// of the client that was connected to it are not used again (a new client connects afterwards)
@@ -614,6 +616,20 @@ func (w *World) doWrite(s fs_db.Store, key string, b []byte, op Op) error {
 		if err != nil {
 			return err
 		}
+		if pf := w.prevFile; pf != nil && (w.step+len(b))%2 == 0 {
+			// the habit "explicit Close, and a deferred Close that runs later": a handle that was closed
+			// successfully is closed a second time while a file created after it is still open and unwritten.
+			// The second Close must return and must not touch anything but its own (finished) file.
+			w.prevFile = nil
+			w.Stats["create_late_second_close"]++
+			done := make(chan struct{})
+			go func() { _ = pf.Close(); close(done) }()
+			select {
+			case <-done:
+			case <-time.After(30 * time.Second):
+				return fmt.Errorf("harness watchdog: second Close of an already closed file has not returned after 30 s")
+			}
+		}
 		rest := b
 		var werr error
 		// every piece goes through one scratch buffer that is overwritten as soon as Write has
@@ -684,6 +700,9 @@ func (w *World) doWrite(s fs_db.Store, key string, b []byte, op Op) error {
 		}
 		if werr != nil {
 			return werr
+		}
+		if cerr == nil {
+			w.prevFile = f
 		}
 		return cerr
 	default:
@@ -762,7 +781,8 @@ type heldReader struct {
 }
 
 func (w *World) holdReader(id int, key string, want []byte) {
-	if len(w.heldReaders) >= 2 || (w.step+len(key)+len(want))%3 != 0 {
+	// contents of a megabyte or more are always held (a reader of a large file that is superseded and collected meanwhile)
+	if len(w.heldReaders) >= 2 || ((w.step+len(key)+len(want))%3 != 0 && len(want) < 1<<20) {
 		return
 	}
 	rc, err := w.store(id).GetReader(w.ctx, key)
